@@ -192,11 +192,13 @@ class ChunkedReceiver:
                     self.trailer = trailer[:pos]
 
                     # The trailer section consists of header field lines.
-                    for line in trailer[: pos - 4].split(b"\r\n"):
-                        if not HEADER_FIELD_RE.fullmatch(line):
-                            self.error = BadRequest("Invalid trailer")
+                    # (An earlier framing error is the one to report.)
+                    if self.error is None:
+                        for line in trailer[: pos - 4].split(b"\r\n"):
+                            if not HEADER_FIELD_RE.fullmatch(line):
+                                self.error = BadRequest("Invalid trailer")
 
-                            break
+                                break
 
                     return orig_size - (len(trailer) - pos)
 
